@@ -38,6 +38,22 @@ fn main() {
         .build()
         .expect("runtime");
     let t = MemTransport::new(files);
+    // Padding: strace's `when=N` counters are per thread. All datastore operations run on the one
+    // blocking thread; give that thread a head start of PAD openat/write calls so that the ordinals
+    // of its datastore calls are never reached by any other thread (loader, main thread).
+    const PAD: usize = 96;
+    rt.block_on(async {
+        tokio::task::spawn_blocking(|| {
+            use std::io::Write;
+            for _ in 0..PAD {
+                if let Ok(mut f) = std::fs::OpenOptions::new().write(true).open("/dev/null") {
+                    let _ = f.write(b"x");
+                }
+            }
+        })
+        .await
+        .unwrap();
+    });
     println!("CLIENT-START");
     let res = rt.block_on(client::load(&root, &t, &ds, &LoadOpts::default(), std::time::Duration::from_secs(60)));
     match res {
@@ -52,7 +68,8 @@ fn main() {
             std::process::exit(0);
         }
         Err(e) => {
-            println!("RESULT err {}: {}", e.class(), e.text().replace('\n', " "));
+            // Display only: the Debug form of the library's error symbolises a backtrace (~0.5 s per process)
+            println!("RESULT err {}", e.text().replace('\n', " "));
             std::process::exit(3);
         }
     }
